@@ -273,6 +273,34 @@ def exhaustive(thorough):
     return cases
 
 
+# ---------------------------------------------------------------- non-ASCII identifiers (deepening round 7)
+# in the domain under every field rule and under the PascalCase / lowercase / UPPERCASE variant rules, and under
+# camelCase when the first character is ASCII (Spec/C06SerdeRule.v uni_rule_ok); the other combinations are
+# generated too and count as correspondence only. No non-ASCII UPPER-case letter after the first position of a
+# variant: there the SnakeCase-based rules consult char::is_uppercase, which the byte-level model does not contain.
+UNI_FIELD_IDENTS = ["größe_x", "naïve_été", "x_ß", "a_名前", "名前", "été_x", "_ö_b", "user_ñ_id", "r#größe", "ünï"]
+UNI_VARIANT_IDENTS = ["Été", "Naïve", "Größe", "A名", "Snake_ünder", "Éa", "HTTPñError", "r#Größe", "Ünï"]
+
+
+def unicode_cases():
+    cases = []
+    shapes = [[], [[["other", "default"]]], [[["rename", "re-nämed"]]], [[["skip"]]], [[["other", "alias", "größe"]], [["renamep", [["ser", "s-ü"], ["de", "d"]]]]]]
+    k = 0
+    for kind in ("struct", "enum"):
+        idents = UNI_FIELD_IDENTS if kind == "struct" else UNI_VARIANT_IDENTS
+        for rule in [None] + RULES:
+            for ii, ident in enumerate(idents):
+                for si, shape in enumerate(shapes):
+                    if si and (si + ii + k) % 2:
+                        continue
+                    cattrs = cattrs_for(rule, k, kind)
+                    plain = "id" if kind == "struct" else "Done"
+                    items = [shaped(kind, cattrs, ident, shape, k), shaped(kind, cattrs, plain, [], k + 1)]
+                    cases.append({"kind": kind, "cattrs": cattrs, "items": items, "dfc": "snake_case", "ws": k % 3})
+                    k += 1
+    return cases
+
+
 # ---------------------------------------------------------------- random containers
 def rand_ident(rng, kind):
     if rng.random() < 0.6:
